@@ -14,6 +14,8 @@ def main():
     for d in (1, 2, 3, 5):
         for n in (d + 1, 3 * d + 5, 60):
             x = rng.standard_normal((n, d)) @ rng.standard_normal((d, d)) + rng.uniform(-1, 1, d)
+            if n >= 3 * d + 5:
+                x = rng.standard_normal((n, d)) @ np.linalg.qr(rng.standard_normal((d, d)))[0] + rng.uniform(-1, 1, d)
             for w in (None, rng.uniform(0.1, 1, n), rng.pareto(1.0, n) + 1e-3):
                 tried += 1
                 v = tools.volume_variation(x, w)
@@ -25,6 +27,14 @@ def main():
                     return
                 if n < 3 * d + 5:
                     continue
+                # affine invariance is stated for maps of condition number up to 1e6: the samples themselves must not add to it,
+                # so it is checked on sample sets whose own weighted covariance is well conditioned (<= 10), with a tolerance of
+                # 10 * eps * cond(covariance of the mapped samples)
+                ww = np.ones(n) / n if w is None else w / w.sum()
+                xc = x - ww @ x
+                c0 = np.linalg.cond(xc.T @ (xc * ww[:, None]))
+                if not c0 <= 10.0:
+                    continue
                 for cond in (1.0, 1e2, 1e4, 1e6):
                     for scale in (1.0, 1e-3):
                         U, _ = np.linalg.qr(rng.standard_normal((d, d)))
@@ -34,7 +44,7 @@ def main():
                         y = x @ A + rng.uniform(-3, 3, d)
                         tried += 1
                         v2 = tools.volume_variation(y, w)
-                        if not np.isclose(v2, v, rtol=1e-4 * max(1.0, cond / 1e4), atol=1e-10):
+                        if not np.isclose(v2, v, rtol=1e-6 + 10 * 2.3e-16 * c0 * cond ** 2, atol=1e-10):
                             print(json.dumps({"reproduced": True, "tried": tried,
                                               "detail": f"metric changes under an invertible affine map (cond={cond:g}, scale={scale:g}): {v!r} -> {v2!r}",
                                               "input": {"d": d, "n": n, "cond": cond, "scale": scale}}))
